@@ -1,10 +1,10 @@
 (* C15 — 16-to-8-bit scaling rounds every sample to the nearest 8-bit value.
    PROVED: the per-sample and per-pixel statement for all 65 536 values and every colour type,
-   colour key included. The lift to whole images (same layout argument as C01) is decided per run
-   by the correspondence check and the oracle; the float expression of the Rust code is tied to
+   colour key included, AND its lift to whole images of every size, interlaced or not
+   (C15_image_scaled); the float expression of the Rust code is tied to
    the integer model exhaustively (65 536 values) on every run. *)
 From OxiVerif Require Import Base.Common Spec.Adam7 Spec.Sem Model.Types Model.BitDepth
-  Proofs.Bridge Proofs.PixelProofs.
+  Proofs.Bridge Proofs.PixelProofs Proofs.ImageLift Proofs.LiftReductions.
 
 Theorem C15_sample_is_round : forall v, u16 v -> scale_16_to_8 v = round8 v.
 Proof. exact scale8_is_round8. Qed.
@@ -40,6 +40,15 @@ Theorem C15_pixel_scaled : forall c vs,
   = color_of_samples (round_key (spec_color_of c)) 8 (map round8 vs).
 Proof. exact pixel_scaled. Qed.
 Print Assumptions C15_pixel_scaled.
+
+(* IMAGE LEVEL: the scaled image means exactly the input picture with every sample (and the key) rounded,
+   for every width, height and interlacing *)
+Theorem C15_image_scaled : forall img img' pic,
+  key16_ok (ctype (hdr img)) -> bytes_ok (data img) ->
+  scaled_bit_depth_16_to_8 img = Some img' ->
+  sem_scaled img = Some pic -> sem img' = Some pic.
+Proof. exact scaled_16_to_8_sem. Qed.
+Print Assumptions C15_image_scaled.
 
 Example C15_examples : round8 255 = 1 /\ round8 (257 * 200) = 200 /\ scale_16_to_8 255 = 1 /\ scale_16_to_8 4660 = 18.
 Proof. exact round8_examples. Qed.
